@@ -97,6 +97,8 @@ def check_l2(case):
     X, kw, w, Q = _build(case)
     k = case["k"]
     kw["algorithm"] = case.get("algorithm", "lloyd")
+    if case.get("n_init_auto"):
+        kw["n_init"] = "auto"
     if case.get("l2_weights") is not None:
         w = np.array(case["l2_weights"][:len(X)], dtype=np.float64)
     facts = dict(k=k, n=len(X), init=case["init"] if isinstance(case["init"], str) else "array", dtype=case["dtype"])
@@ -148,7 +150,7 @@ def _cases(draw, tier="quick"):
     return dict(X=X, k=k, init=init, n_init=draw(st.integers(1, 3)), max_iter=draw(st.integers(1, 20)),
                 random_state=draw(st.one_of(st.none(), st.integers(0, 1000))), seed=draw(st.integers(0, 2**31 - 2)),
                 tol=draw(st.sampled_from([1e-4, 0.0, 1e-2])), dtype=draw(st.sampled_from(["float64", "float64", "float32"])),
-                ones_weight=draw(st.booleans()), Q=Q, offset=draw(st.sampled_from([0.0, 0.0, 0.0, 1024.0, 1048576.0])), algorithm=draw(st.sampled_from(["lloyd", "lloyd", "elkan"])),
+                ones_weight=draw(st.booleans()), Q=Q, n_init_auto=draw(st.integers(0, 4)) == 0, offset=draw(st.sampled_from([0.0, 0.0, 0.0, 1024.0, 1048576.0])), algorithm=draw(st.sampled_from(["lloyd", "lloyd", "elkan"])),
                 l2_weights=draw(st.one_of(st.none(), st.lists(st.integers(1, 16).map(lambda v: v / 4.0), min_size=len(X), max_size=len(X)))))
 
 
